@@ -160,10 +160,14 @@ class CacheView(Table):
 
             # serve the remainder from the inner iterator
             it = iter(self.inner)
-            for row in islice(it, len(self.cache), None):
-                # maybe there's more room in the cache?
-                if not self.n or len(self.cache) < self.n:
+            pos = len(self.cache)  # position of the next row from inner
+            for row in islice(it, pos, None):
+                # maybe there's more room in the cache? (N.B., only append
+                # the row if another iterator has not cached it already)
+                if pos == len(self.cache) and (not self.n or
+                                               len(self.cache) < self.n):
                     self.cache.append(row)
+                pos += 1
                 yield row
 
             # does the cache contain a complete copy of the inner table?
